@@ -788,7 +788,21 @@ namespace trompeloeil {
     location loc,
     std::string const &msg)
   {
-    reporter<T>::send(s, loc.file, loc.line, msg.c_str());
+    // The reporter interface takes a C string. A printed value may hold a
+    // NUL byte (a char of value 0, a std::string with one inside): make it
+    // visible instead of losing the rest of the report behind it.
+    if (msg.find('\0') == std::string::npos)
+    {
+      reporter<T>::send(s, loc.file, loc.line, msg.c_str());
+      return;
+    }
+    std::string visible;
+    visible.reserve(msg.size() + 8);
+    for (auto c : msg)
+    {
+      if (c != '\0') visible += c; else visible += "\\0";
+    }
+    reporter<T>::send(s, loc.file, loc.line, visible.c_str());
   }
 
   template <typename T>
